@@ -558,7 +558,7 @@ B('buf-runner-reraises', ['C03'], ['C03-S3'],
   (A, "            logging.exception(\"Failed to run %s, retrying\", self.func)\n        else:", "            logging.exception(\"Failed to run %s, retrying\", self.func)\n            raise\n        else:"))
 B('buf-no-retry-after-run', ['C03'], ['C03-S3'],
   (A, "                await self._run_func(inputs)\n            else:", "                await self._run_func(inputs)\n                return\n            else:"))
-B('buf-drained-not-loaded', ['C03', 'C08'], ['C03-S4', 'C08-D4'],
+B('buf-drained-not-loaded', ['C03'], ['C03-S4'],
   (A, "            input_gens.extend(map(_load_inputs, self._empty_queue()))", "            for _ in self._empty_queue():\n                pass"))
 B('buf-clear-before-gather', ['C03'], ['C03-S4'],
   (A, """            if input_gens:  # Load as many as possible concurrently
